@@ -379,6 +379,34 @@ def x2_use_graphs(rep, impl, rng, tier, c, st):
         if sg is not None:
             st["x2_rc0"] += 1
             st.setdefault("x2_sigs", {}).setdefault(sg, []).append(desc)
+    # the same graphs under unusual module search paths: an over-long first directory (the name built from it does not fit the
+    # path buffer), empty entries, a missing first directory, a trailing colon — the search must skip what it cannot use and give the
+    # same answer (files opened, diagnostics, status) as with the plain path; a hang is caught by the harness' per-request timeout
+    import copy
+    plain = impl.env["NEVER_PATH"]
+    # (name, path, same): same = the answer must equal the plain one.  NEVER_PATH is copied into a MAX_NEVER_PATH_LEN buffer, so a
+    # path longer than that loses its tail: modules are then reported missing (a diagnosed error, which is all C05 asks for) —
+    # for those variants only the contract is checked: terminates, no sanitizer report, every opened file closed exactly once
+    variants = [("overlong-first", "d" * 1015 + ":" + plain, False), ("overlong-two", "e" * 1100 + ":" + "f" * 1030 + ":" + plain, False),
+                ("overlong-short-tail", "g" * 1010 + ":" + impl.mods, False), ("empty-entries", "::" + plain + "::", True),
+                ("missing-first", "/nonexistent_dir_verif_a:/nonexistent_dir_verif_b:" + plain, True), ("trailing-colon", plain + ":", True)]
+    sub = list(range(0, min(len(graphs), 120), 4 if tier == "quick" else 1))
+    st["x2_path_variants"] = 0
+    for vname, vpath, same in variants:
+        imp2 = copy.copy(impl)
+        imp2.env = dict(impl.env, NEVER_PATH=vpath)
+        res2 = imp2.run(["c %s %s" % ("f" if graphs[i].filemode else "s", paths[i]) for i in sub], workers=4)
+        for i, a2 in zip(sub, res2):
+            a = ires[i]
+            st["x2_path_variants"] += 1
+            key = lambda x: (x.get("done"), x.get("ret"), x.get("usp"), [o for o in (x.get("opens") or [])], x.get("fcloses"), x.get("dclose"), x.get("san"))
+            contract = a2.get("done") == 1 and a2.get("dclose") == 0 and a2.get("fcloses") == len(a2.get("opens") or []) and a2.get("san") in (None, "-")
+            if (key(a2) != key(a)) if same else (not contract):
+                st["x2_div"] += 1
+                if st["x2_div"] > 3: continue
+                g = graphs[i]
+                rep.violation("usegraph_path_%s_%s" % (vname, os.path.basename(paths[i])), "# the module search gives another answer (or does not terminate) under NEVER_PATH variant `%s`\n# plain:   %s\n# variant: %s\n# use graph (%s): main uses %s; modules %s\nkind: usegraph\nfilemode: %d\nmain: %s\nNEVER_PATH=%s\n"
+                              % (vname, key(a), key(a2), g.tag, g.main_uses, g.mods, g.filemode, ",".join(g.main_uses), vpath[:80] + "..."), True)
     report_signatures(rep, st, "x2", {k: [(None, d) for d in v] for k, v in st.pop("x2_sigs", {}).items()}, None)
     st["x2_graphs"] = len(graphs); st["x2_kinds"] = kinds
     st["x2_exhaustive_small_scope"] = (tier == "thorough")
@@ -622,6 +650,11 @@ CORPUS = [
     ("corpus:syntax", b"func main() -> int { 0 \n"),
     ("corpus:func-recovery", b"func f 1 2 3\nfunc main() -> int { 0 }\n"),
     ("corpus:nul", b"func main() -> int { 0 }\x00 garbage ((("),
+    # constants the reducer may fold: parenthesised string / char constants, literal operands of && and ||, arithmetic identities
+    ("corpus:fold-paren-strings", b"func greet(name : string) -> string { (\"Hello, \" + \"dear \") + name }\nfunc main() -> int { let c = ('x'); let s = ((\"abc\")); prints(greet(\"w\") + s + c + (\"a\" + (\"b\" + \"c\")) + \"\\n\"); 0 }\n"),
+    ("corpus:fold-literal-operands", b"func say(m : string) -> bool { prints(m); true }\nfunc n(s : string) -> int { length(s) }\nfunc main() -> int { let a = false && say(\"x\" + \"y\"); let b = true || say(\"z\"); let c = say(\"p\") && false; let d = say(\"q\") || true; 0 * n(\"ab\" + \"cd\") + n(\"e\") * 0 + (n(\"f\") - n(\"f\")) }\n"),
+    ("corpus:let-func-header-error", b"func main() -> int { let f = let func g( -> int { 1 }; 0 }\n"),
+    ("corpus:let-func-header-error2", b"func main() -> int\n{\n    let func inner(a : int, -> int { a };\n    0\n}\n"),
 ]
 
 def gen_inputs(rng, tier, samples, c):
